@@ -15,11 +15,11 @@ def answerCore (fs : List (String × String)) : E String := do
   let op ← need fs "op"
   let N ← needNat fs "N"
   if hN : 0 < N then
-    let κa ← needMat fs "kern" N N
+    let (κa, kexp) ← needMatNorm fs "kern" N N
     let κ : Mat N N Fix := matOf κa N N
     if op == "lle" || op == "ltsa" || op == "hlle" then
       let nb ← needNb fs "nb" N hN
-      let (M, nnz, tscale, genNote) ← if op == "lle" then runModelLle hN fs κ nb else runModelEig hN fs κ nb (op == "hlle")
+      let (M, nnz, tscale, genNote) ← if op == "lle" then runModelLle hN fs κ nb kexp else runModelEig hN fs κ nb (op == "hlle") kexp
       if (field? fs "abort").isSome then
         return s!"res=FAIL:abort model=ok"
       let Mi ← needMat fs "M" N N
@@ -48,7 +48,7 @@ def answerCore (fs : List (String × String)) : E String := do
       match knnContract κ nb with
       | some e => return s!"res=BROKEN:neighbours {e}"
       | none => pure ()
-      let (M, _, tscale, genNote) ← if method == "klle" then runModelLle hN fs κ nb else runModelEig hN fs κ nb (method == "hlle")
+      let (M, _, tscale, genNote) ← if method == "klle" then runModelLle hN fs κ nb kexp else runModelEig hN fs κ nb (method == "hlle") kexp
       if threw != "-" then return s!"res=FAIL:threw what={threw}"
       let lhs ← needMat fs "lhs" N N
       let c := cmpArr tolM lhs M tscale
@@ -123,7 +123,9 @@ def answer (line : String) : String :=
   match answerCore fs with
   | .ok s => s
   | .error e =>
-    if e.startsWith "SKIP:" then "res=" ++ e
+    if e.startsWith "SKIP:" then
+      -- an implementation exception on an input the model skips is counted separately (never silently dropped)
+      (if (field? fs "threw").isSome && field? fs "threw" != some "-" then "res=SKIP:impl-threw-on-skipped-input " else "res=") ++ e
     else if e.startsWith "MODEL-ERR:" then
       (if (field? fs "abort").isSome then "res=FAIL:abort model=" else "res=") ++ e
     else if e.startsWith "CONTRACT:" then "res=BROKEN:oracle-contract " ++ (e.drop 9).toString
